@@ -58,6 +58,13 @@ PROPS["C04"] = dict(
                  "values under text keys are not inspected by the library (opaque)"],
 )
 
+PROPS_DEBUG = {}
+PROPS_DEBUG["CL"] = dict(
+    claim="debug", props="Props/C08.v", theorems=[],
+    imports=["Model.Client", "Check.ClientC"], case_type="ccase", find_bad_from="find_bad_from",
+    rigs=[dict(test="TestClientWalk", timeout_quick=600, timeout_thorough=1200)],
+    rule="debug")
+
 def signature(pid, rec, reasons):
     tags = rec.get("tags") or []
     sig = [t[4:] for t in tags if t.startswith("sig:")]
